@@ -149,6 +149,13 @@ func vhC05(engine int, route int, short int) {
 			b = vhNumberText("b", short, "019-+", "", "")
 			req.Form = append(req.Form, greq.KV{"b", b})
 		}
+		// a value under a form field's name in the URL query is not a form field: it binds nothing
+		if symxBool("a.alsoInQuery") {
+			req.Query = append(req.Query, greq.KV{"a", "zz"})
+		}
+		if symxBool("b.alsoInQuery") {
+			req.Query = append(req.Query, greq.KV{"b", "7"})
+		}
 		bv, bOK := vhRefParseInt(b, 64)
 		ok = aPresent && (!bPresent || bOK)
 		check = func(args []any) bool {
